@@ -983,6 +983,33 @@ func ruleV6(c *Ctx) {
 			}
 		}
 		seps[s.name] = sep
+		// the joining side always joins: every entry it produces contains the separator, also for an empty value
+		// ("FOO=" and "FOO" are different things to whoever splits it again)
+		if s.name == "KeyValue.ToOCI" {
+			always := true
+			for _, r := range returnsOf(s.fn) {
+				for _, v := range returnValues(r, 0) {
+					bo, ok := v.(*ssa.BinOp)
+					joined := false
+					for d := 0; ok && d < 3; d++ {
+						if bo.Op != token.ADD {
+							break
+						}
+						if cs, isC := constString(bo.Y); isC && cs == sep {
+							joined = true
+						}
+						if cs, isC := constString(bo.X); isC && cs == sep {
+							joined = true
+						}
+						bo, ok = bo.X.(*ssa.BinOp)
+					}
+					if !joined {
+						always = false
+					}
+				}
+			}
+			c.ok("V6", s.name+"/always", s.fn.Pos(), always, "every entry produced by "+s.name+" contains the separator", "some return of "+s.name+" yields an entry without the separator (e.g. a bare key for an empty value): the container shown to later plugins then differs from what the generator produces from the combined adjustment (\"FOO\" vs \"FOO=\")")
+		}
 		c.ok("V6", s.name, s.fn.Pos(), found && limitOK && sep == "=", fmt.Sprintf("%s uses the separator \"=\" (limit 2 when splitting)", s.name),
 			fmt.Sprintf("separator %q found=%v limit2=%v: environment entries are joined and split inconsistently", sep, found, limitOK))
 	}
